@@ -134,6 +134,10 @@ def combinator_variants(facts, f, which):
     return {"Ok": g["body"], "Err": other} if is_result else {"Some": g["body"], "None": other}
 
 
+S1_FACTS = None
+_depth = [0]
+
+
 def child_classes(f, body=None, recvs=None):
     idx, derived = index_vars(f)
     out = set()
@@ -145,7 +149,26 @@ def child_classes(f, body=None, recvs=None):
         k = x.get("k")
         if k == "Call":
             c = callee(x) or ""
-            if c == "savefile::Introspect::introspect_child" and len(x["args"]) == 2 and var_of(x["args"][1]) in derived:
+            h = None
+            if S1_FACTS is not None:
+                h = S1_FACTS.fns.get((x.get("res") or {}).get("fn") or x.get("fn"))
+            if h is not None and h["crate"] == "savefile" and not (h.get("impl") or {}).get("trait") and h.get("body") and h is not f \
+                    and any(var_of(a) in derived for a in x["args"]) and _depth[0] < 3:
+                # a shared helper that is handed the index (`introspect_slice_child(self, index)`): its classification is ours,
+                # with the helper's parameters read as the arguments they receive
+                _depth[0] += 1
+                hrecv = set()
+                hc, hl = child_classes(h, None, hrecv)
+                _depth[0] -= 1
+                out |= {c_ for c_ in hc if c_ != ("const", 0)}
+                lits |= hl
+                pnames = [(p.get("pat") or {}).get("v", "").split("#")[0] for p in h.get("params", [])]
+                for rp in hrecv:
+                    if rp and rp[0] in pnames and pnames.index(rp[0]) < len(x["args"]):
+                        recvs.add(recv_path(f, x["args"][pnames.index(rp[0])]) + tuple(rp[1:]))
+                    else:
+                        recvs.add(rp)
+            elif c == "savefile::Introspect::introspect_child" and len(x["args"]) == 2 and var_of(x["args"][1]) in derived:
                 out.add(("delegate", x.get("self_ty")))
             elif c.endswith(BOUNDED) and len(x["args"]) >= 2:
                 v = var_of(x["args"][-1])
@@ -250,6 +273,8 @@ def len_classes(n):
 @rule("S1", ["C17"], floor=150, doc="for every Introspect impl (library and derived) the children served by introspect_child and the count "
       "reported by introspect_len belong to the same class (len, 2*len, a literal k with indices 0..k-1, or delegation)")
 def s1(facts, tier):
+    global S1_FACTS
+    S1_FACTS = facts
     impls = {}
     for f in facts.fns.values():
         im = f.get("impl")
@@ -446,12 +471,68 @@ class AffinePaths:
                 st["cur"] = _t_add(st["cur"], {f"REC{st['rec']}": 1})
                 st["trace"].append("recursive call")
 
+    def arm_state(self, m, arm, st):
+        """state on entry to a match arm: the scrutinee's effects, the arm's bindings as symbols, the frame invariant for `Some(name)`"""
+        from .taint_rules import pat_binds
+        a = self.fork(st)
+        self.effects(m["e"], a)
+        is_rec = any(y.get("k") == "Call" and ((y.get("res") or {}).get("fn") or y.get("fn")) == self.rec_fn for y in walk(m["e"]))
+        scr = self.sym(m["e"]) or "scrutinee"
+        pat = arm["pat"]
+        for bnd in pat_binds(pat):
+            a["vars"][bnd["v"]] = {bnd["v"].split("#")[0]: 1}
+        a["trace"].append(f"{scr} is {pat.get('variant', 'matched')}")
+        if not is_rec and pat.get("variant") == "Some" and self.some_facts is not None:
+            for bnd in pat_binds(pat):
+                a["facts"].extend(self.some_facts(bnd["v"].split("#")[0]))
+        if is_rec and pat.get("variant") == "None" and self.post is not None:
+            a["facts"].append(self.post(a))
+            a["facts"].append({f"REC{a['rec']}": 1})
+        return a
+
+    def expr_paths(self, n, st):
+        """(state, affine value or None) for every way through expression n that completes normally"""
+        n = peel(n)
+        k = n.get("k")
+        if k == "Block":
+            states = [st]
+            for s_ in n.get("stmts", []):
+                nxt = []
+                for s0 in states:
+                    nxt.extend(self.stmt(s_, s0))
+                states = nxt
+            for s0 in states:
+                if n.get("e") is None:
+                    yield s0, None
+                else:
+                    yield from self.expr_paths(n["e"], s0)
+            return
+        if k == "Match":
+            for arm in n["arms"]:
+                a = self.arm_state(n, arm, st)
+                yield from self.expr_paths(arm["body"], a)
+            return
+        self.effects(n, st)
+        yield st, self.ev(n, st)
+
     def stmt(self, s, st):
         k = s.get("k")
         if k == "ExprS":
             yield from self.stmt(s["e"], st)
         elif k == "LetS":
-            if s.get("init") is not None:
+            init = s.get("init")
+            pi = peel(init) if init is not None else None
+            if pi is not None and pi.get("k") in ("Match", "Block") and s["pat"].get("k") == "Bind" and \
+                    any(y.get("k") in ("Return", "If", "Match", "LetS") for y in walk(pi)):
+                # `let x = match opt { Some(v) => { ..; v + 1 } None => 0 };` : one state per way through the initialiser
+                for st2, t in self.expr_paths(pi, st):
+                    if t is not None:
+                        st2["vars"][s["pat"]["v"]] = t
+                    else:
+                        st2["vars"].pop(s["pat"]["v"], None)
+                    yield st2
+                return
+            if init is not None:
                 self.effects(s["init"], st)
                 if s["pat"].get("k") == "Bind":
                     t = self.ev(s["init"], st)
@@ -528,8 +609,7 @@ class AffinePaths:
             return
         elif k == "Match":
             for arm in s["arms"]:
-                a = self.fork(st)
-                self.effects(s["e"], a)
+                a = self.arm_state(s, arm, st)
                 yield from self.block(arm["body"], a)
         else:
             self.effects(s, st)
